@@ -168,6 +168,37 @@ fn catalogue() -> Vec<PairCase> {
     ]
 }
 
+/// the same with the pass-through hasher and labels whose hashes are consecutive integers (pre-hashed data):
+/// NoHashHasher reads the 8 bytes of a u64 big-endian, so the label is the byte-swapped integer
+fn empirical_nohash(case: &PairCase, l: usize, m: usize, t: u64, base: u64) -> Result<Vec<f64>, String> {
+    use probminhash::nohasher::NoHashHasher;
+    let nsym = case.a.iter().chain(case.b.iter()).max().map(|x| *x as u64 + 1).unwrap_or(1);
+    let nchunks = (t + 255) / 256;
+    let chunks: Vec<Result<Vec<f64>, String>> = (0..nchunks)
+        .into_par_iter()
+        .map(|ci| {
+            crate::common::guarded_mut(|| {
+                let mut h = ProbOrdMinHash2::<NoHashHasher>::new(m as u32, l);
+                let mut out = Vec::new();
+                for tt in (ci * 256)..((ci + 1) * 256).min(t) {
+                    let o = base.wrapping_add(tt * nsym);
+                    let sa: Vec<u64> = case.a.iter().map(|s| (o + *s as u64).swap_bytes()).collect();
+                    let sb: Vec<u64> = case.b.iter().map(|s| (o + *s as u64).swap_bytes()).collect();
+                    let ha = h.hash_set(&sa);
+                    let hb = h.hash_set(&sb);
+                    out.push(ha.iter().zip(hb.iter()).filter(|(x, y)| x == y).count() as f64 / m as f64);
+                }
+                out
+            })
+        })
+        .collect();
+    let mut v = Vec::with_capacity(t as usize);
+    for c in chunks {
+        v.extend(c.map_err(|p| format!("panic: {}", p))?);
+    }
+    Ok(v)
+}
+
 /// fraction of equal positions for T disjoint labellings of the symbols
 fn empirical(case: &PairCase, l: usize, m: usize, t: u64, base: u64) -> Result<Vec<f64>, String> {
     let nsym = case.a.iter().chain(case.b.iter()).max().map(|x| *x as u64 + 1).unwrap_or(1);
@@ -500,11 +531,45 @@ pub fn run(ctx: &Ctx) -> i32 {
             }
         }
     }
+    // pass-through hasher, consecutive label hashes, pairs with repeated elements
+    for c in catalogue().iter().filter(|c| ["suite-pattern-1", "alternating", "repeat-block"].contains(&c.name)) {
+        for l in 1..=c.max_l.min(3) {
+            let (target, _) = omh_similarity(&c.a, &c.b, l);
+            for &m in &[1usize, 7, 16] {
+                configs += 1;
+                let tt = 20_000u64;
+                let b0 = (base << 8) + (configs << 36);
+                let run = |t: u64, b: u64| empirical_nohash(c, l, m, t, b);
+                let Ok(emp) = run(tt, b0) else { continue };
+                evals += 2 * tt;
+                let (mean, se0) = mean_se(&emp);
+                let se = se0.max((target * (1. - target) / (tt as f64 * m as f64)).sqrt()).max(1e-9);
+                let z = (mean - target) / se;
+                let mut bad = z.abs() > 6.;
+                let mut z2 = f64::NAN;
+                if bad {
+                    if let Ok(e2) = run(4 * tt, b0 + (1u64 << 35)) {
+                        let (m2, s2) = mean_se(&e2);
+                        z2 = (m2 - target) / s2.max(1e-9);
+                        bad = z2.abs() > 6. && z2.signum() == z.signum();
+                    }
+                }
+                if bad {
+                    ctx.violation(
+                        &format!("collision-probability:nohash-adjacent-labels:{}:l={}", c.name, l),
+                        &format!("[no-op hasher, labels with consecutive hashes] sequences {:?} / {:?}, l={}, m={}: mean fraction of equal positions {:.5} vs target {:.5} (z = {:.1}, confirm {:.1})", c.a, c.b, l, m, mean, target, z, z2),
+                        json!({"kind": "e2e-nohash", "name": c.name, "l": l, "m": m, "t": tt, "base": b0.to_string()}),
+                    );
+                }
+                edetails.push(json!({"pair": c.name, "hasher": "NoHash, consecutive label hashes", "l": l, "m": m, "labellings": tt, "target": target, "mean": mean, "se": se, "z": z}));
+            }
+        }
+    }
     println!("C10 end-to-end configs={} max|z|={:.2} target-enumeration nodes={} cross-checked targets={}", configs, maxz, target_nodes, crosschecked);
     let coverage = json!({
         "evaluations": evals,
         "distinct_nontrivial": configs + 2 * n_tab,
-        "rule": "target: exact enumeration of ranking prefixes (cross-checked against all P! rankings for unions of <=8/9 pairs); tables: for every element of a block of 2^19 (2^21) the race tables of occurrences 1..3 are read from the real code (hook H4) and tested for bit-identical values across occurrences (must be 0), P(occ_i<occ_j)=1/2, equal laws across occurrences/elements/positions (two-sample KS) and zero rank correlation; end-to-end: 16 sequence pairs x l in {1,2,3,5,8,15} x m in {1,4,16,64}, T disjoint labellings each, mean fraction of equal positions within 6 standard errors of the target (exact for targets 0 and 1), confirmed on a 4x larger fresh block; distinct = configurations + block elements",
+        "rule": "target: exact enumeration of ranking prefixes (cross-checked against all P! rankings for unions of <=8/9 pairs); tables: for every element of a block of 2^19 (2^21) the race tables of occurrences 1..3 are read from the real code (hook H4) and tested for bit-identical values across occurrences (must be 0), P(occ_i<occ_j)=1/2, equal laws across occurrences/elements/positions (two-sample KS) and zero rank correlation; end-to-end: 16 sequence pairs x l in {1,2,3,5,8,15} x m in {1,4,16,64}, T disjoint labellings each, mean fraction of equal positions within 6 standard errors of the target (exact for targets 0 and 1), confirmed on a 4x larger fresh block; the pairs with repeated elements are re-run with the no-op hasher on labels whose hashes are consecutive integers; distinct = configurations + block elements",
         "samples": [
             {"pair": {"a": [0, 1, 0, 1], "b": [1, 0, 1, 0], "l": 2, "target": omh_similarity(&[0, 1, 0, 1], &[1, 0, 1, 0], 2).0}},
             {"pair": {"a": [0, 0, 1, 2], "b": [0, 1, 1, 2], "l": 3, "target": omh_similarity(&[0, 0, 1, 2], &[0, 1, 1, 2], 3).0}},
@@ -544,6 +609,19 @@ pub fn replay(_ctx: &Ctx, case: &Value) -> Result<(bool, String), String> {
             let z = (mean - target) / se.max(1e-9);
             let viol = if target == 0. || target == 1. { (mean - target).abs() > 1e-12 } else { z.abs() > 6. };
             Ok((viol, format!("mean {:.6} target {:.6} z {:.2}", mean, target, z)))
+        }
+        Some("e2e-nohash") => {
+            let name = case["name"].as_str().ok_or("name")?;
+            let l = case["l"].as_u64().ok_or("l")? as usize;
+            let m = case["m"].as_u64().ok_or("m")? as usize;
+            let t = case["t"].as_u64().ok_or("t")?;
+            let base: u64 = case["base"].as_str().ok_or("base")?.parse().map_err(|e| format!("{}", e))?;
+            let c = catalogue().into_iter().find(|c| c.name == name).ok_or("pair")?;
+            let (target, _) = omh_similarity(&c.a, &c.b, l);
+            let emp = empirical_nohash(&c, l, m, t, base)?;
+            let (mean, se) = mean_se(&emp);
+            let z = (mean - target) / se.max(1e-9);
+            Ok((z.abs() > 6., format!("mean {:.6} target {:.6} z {:.2}", mean, target, z)))
         }
         Some("tables") => {
             let m = case["m"].as_u64().ok_or("m")? as usize;
